@@ -7,3 +7,14 @@
 pub mod avec;
 pub mod bitset;
 pub mod resolve;
+pub mod sortlex;
+
+/// `std::env::var_os` stub: the dev-profile `log!` macro of the runtime consults
+/// `RUSTEMO_TRACE` on every call; tracing is not a subject of any property.
+pub fn no_env<K: AsRef<std::ffi::OsStr>>(_k: K) -> Option<std::ffi::OsString> {
+    None
+}
+/// `std::fmt::format` stub for harnesses where a message is built but not inspected.
+pub fn no_fmt(_a: std::fmt::Arguments<'_>) -> String {
+    String::new()
+}
